@@ -601,7 +601,7 @@ def run(ctx):
                     "history_length_histogram": {str(k): v for k, v in sorted(stats["len"].items())},
                     "replays": totals["replays"], "replay_steps": totals["steps"], "replays_matching_model": totals["matched"],
                     "replays_differing_from_model": totals["mismatched"], "classes_generated": len(live),
-                    "classes_skipped_not_compiling": len(skipped), "mocks_generated": len(live) * 8,
+                    "classes_skipped_not_compiling": len(skipped), "mocks_generated": len(live) * 8 + 16 * len(multi_classes(live)),
                     "generate_and_build_s": round(t_gen, 1),
                     "deep_shapes": [shape_key(s) for s in deep] if not thorough else "all",
                     "situations_in_exported_histories": {k: stats.get(k, 0) for k in list(GUARDS) + ["read_reset_call_reinspect"]}})
